@@ -92,7 +92,7 @@ TrExpand ==
              THEN /\ (fam = "ep" => EpChecks(ItemOf(E.id), E))
                   /\ (fam = "fw" => FwChecks(ItemOf(E.id), E, FwVariants))
                   /\ (fam = "gen" => GenChecks(ItemOf(E.id), E))
-                  /\ (fam \in {"pt", "real", "fw", "gen"} => PassChecks(E))
+                  /\ (fam \in {"pt", "real", "fw", "gen", "ep"} => PassChecks(E))
                   /\ eph' = IF fam = "ep" THEN EpRemember(ItemOf(E.id), E) ELSE eph
              ELSE UNCHANGED eph
     /\ l' = l + 1
